@@ -1114,6 +1114,25 @@ class Unit:
             blk = [b for b in nodes if b["k"] == "block" and b["id"] == n["block"]][0]
             st = [x for x in nodes if x["k"] == "stmt" and x["block"] == blk["id"]]
             last = st[-1]
+            # an explicit `drop(<guard>);` statement in the guard's own block ends the critical section
+            # there: ghost_unlock(w) after it, before the early exits between the `let` and it, and
+            # nothing at the end of the block
+            gm = re.match(r"let\s+(?:mut\s+)?(\w+)\s*(?::[^=]+)?=", src.text(*n["span"]))
+            drops = [x for x in st if gm and x["span"][0] > n["span"][1]
+                     and re.fullmatch(r"(?:std::mem::|mem::)?drop\(\s*%s\s*\)\s*;" % re.escape(gm.group(1)), src.text(*x["span"]).strip())]
+            if len(drops) == 1:
+                d = drops[0]
+                for x in nodes:
+                    if x["k"] in ("continue", "break", "return") and n["span"][1] <= x["span"][0] and x["span"][1] <= d["span"][0]:
+                        for y in nodes:
+                            if y["k"] == "await" and x["span"][0] <= y["span"][0] < x["span"][1]:
+                                raise Undecided(f"E7: guard of {key} is alive across an await in an exit expression")
+                        eds.append((x["span"][0], x["span"][0], "{ proof { ghost_unlock(w); } } ", None))
+                eds.append((d["span"][1], d["span"][1], " proof { ghost_unlock(w); } ", None))
+                self._log("E7", src, n["span"][0], "", "ghost_unlock(w) after the explicit drop of the guard and before early exits in front of it")
+                continue
+            if len(drops) > 1 or (gm and re.search(r"\bdrop\(\s*%s\s*\)" % re.escape(gm.group(1)), src.text(n["span"][1], blk["close"]))):
+                raise Undecided(f"E7: guard of {key} is dropped explicitly in a nested block or in several places")
             # the guard is dropped at the end of its block and at every early exit from it
             for x in nodes:
                 if x["k"] in ("continue", "break", "return") and n["span"][1] <= x["span"][0] and x["span"][1] <= blk["close"]:
@@ -1132,10 +1151,17 @@ class Unit:
                 eds.append((last["span"][1], last["span"][1], "; proof { ghost_unlock(w); } ", None))
             elif last["kind"] == "expr":
                 # tail expression evaluated with the guard alive: it must not contain an await
-                for x in nodes:
-                    if x["k"] == "await" and last["span"][0] <= x["span"][0] < last["span"][1]:
-                        raise Undecided(f"E7: guard of {key} is alive across an await in a tail expression")
-                if not any(x["k"] in ("continue", "break", "return") and x["span"][0] == last["span"][0] for x in nodes):
+                is_exit = any(x["k"] in ("continue", "break", "return") and x["span"][0] == last["span"][0] for x in nodes)
+                has_await = any(x["k"] == "await" and last["span"][0] <= x["span"][0] < last["span"][1] for x in nodes)
+                if has_await and is_exit:
+                    raise Undecided(f"E7: guard of {key} is alive across an await in a tail expression")
+                if has_await:
+                    # the tail is evaluated (and awaited) with the guard alive and the guard is dropped
+                    # after it: `TAIL` -> `let __e7_tail = TAIL; ghost_unlock(w); __e7_tail`; what may happen
+                    # while the guard is alive is decided by the contracts of the calls made in TAIL
+                    eds.append((last["span"][0], last["span"][0], "let __e7_tail = ", None))
+                    eds.append((last["span"][1], last["span"][1], "; proof { ghost_unlock(w); } __e7_tail", None))
+                elif not is_exit:
                     eds.append((last["span"][0], last["span"][0], " proof { ghost_unlock(w); } ", None))
             elif any(x["k"] in ("continue", "break", "return") and x["span"][0] == last["span"][0] for x in nodes):
                 pass      # the block ends in `return;` / `break;` / `continue;`: nothing is reachable after it
